@@ -2326,6 +2326,11 @@ def special_c18(tier, seed):
             if kv.get("jacobian_equal") != "1":
                 fails.append((f"JIT-generated Jacobian function differs from the vectorised CPU kernel (flat ids set on the declared pattern, then on the fill-closed one): {l[:160]}",
                               {"cmd": f"{exe} {seed} {n}", "line": l}, True))
+            if kv.get("lu_equal") != "1":
+                fails.append((f"JIT-generated LU decomposition differs from the vectorised CPU Doolittle decomposition (arbitrary prior contents of L/U): {l[:160]}",
+                              {"cmd": f"{exe} {seed} {n}", "line": l}, True))
+            if kv.get("solve_equal") != "1":
+                fails.append((f"JIT-generated linear solve differs from the vectorised CPU LinearSolver: {l[:160]}", {"cmd": f"{exe} {seed} {n}", "line": l}, True))
             continue
         if not l.startswith("jit "):
             fails.append((f"JIT driver case failed: {l[:120]}", {"cmd": f"{exe} {seed} {n}", "line": l}, True)); continue
